@@ -203,12 +203,20 @@ class Check:
         REPLAY.mkdir(parents=True, exist_ok=True)
 
     # -- proofs ------------------------------------------------------------------
-    def prove(self, extra_targets: list[str] | None = None) -> bool:
+    def prove(self, extra_targets: list[str] | None = None, also: list[str] | None = None) -> bool:
+        """Compile coq/props/<prop>.v (and the further property files named in `also`) from
+        scratch; every theorem in them is an obligation."""
         bad = forbidden_tokens()
         if bad:
             self.violation("forbidden-token", {"theorem": "development hygiene", "tokens": bad}, found_input=False)
             return False
         ok, thms, assumptions, log = check_props_file(self.prop, extra_targets)
+        for name in also or []:
+            ok2, thms2, ass2, log2 = check_props_file(name)
+            ok = ok and ok2
+            thms = thms + thms2
+            assumptions = dict(assumptions, **ass2)
+            log += log2
         self.obligations = thms
         self.axioms = assumptions
         if ok:
